@@ -9,7 +9,7 @@
 EXTENDS Integers, Sequences, TLC, F64, F64Json, IOUtils
 
 Trace == F64NdJson(IOEnv.TRACE_FILE)
-EqD(x, y, s) == FCloseS(x, y, s, Lit("1e-5"))      \* finite-difference relations
+EqD(x, y, s) == FCloseS(x, y, s, Lit("1e-8"))      \* finite-difference relations (Richardson-extrapolated, step 1e-4 T)
 EqX(x, y, s) == FCloseS(x, y, s, Lit("1e-12"))     \* algebraic relations
 EqR(x, y, s) == FCloseS(x, y, s, Lit("1e-9"))      \* reference formulas with exp/log/pow
 KD == INSTANCE Component WITH Add <- FAdd, Sub <- FSub, Mul <- FMul, Div <- FDiv, Lt <- FLt, Le <- FLe,
@@ -36,7 +36,7 @@ CoolScale(hc, t0, t1) ==
        FDiv(FMul(A(hc.d), FAdd(KX!P4(t0), KX!P4(t1))), Lit("4.0")))
 
 Cl_ClausiusClapeyron ==
-  (E.ev = "Vap") => KD!ClausiusClapeyron(E.hvap, E.T, E.h, E.pPlus, E.pMinus, FMul(E.hvap, Lit("1000")))
+  (E.ev = "Vap") => KD!ClausiusClapeyronR(E.hvap, E.T, E.h, E.pPlus, E.pMinus, E.pPlus2, E.pMinus2, FMul(E.hvap, Lit("1000")))
 Cl_IsIntegral ==
   (E.ev = "Cool") => KX!IsIntegral(E.q01, E.t0, E.t1, E.cp0, E.cpmid, E.cp1, CoolScale(E.hc, E.t0, E.t1))
 Cl_Additive ==
